@@ -342,3 +342,43 @@ def sync_open_close(c):
     c.call((scf, 'open_link'))
     c.ensure('open-raises-when-the-connection-fails', "raised == 'Exception' and not scf.is_link_open()")
     c.ensure('callbacks-removed-again', 'len(cf.connected.callbacks) + len(cf.disconnected.callbacks) + len(cf.connection_failed.callbacks) + len(cf.fully_connected.callbacks) == %d' % n_cb)
+
+
+@contract('C02', 'updater.link-lost-while-waiting', [PRM + ':_ParamUpdater.run', PRM + ':_ParamUpdater.close', PRM + ':Param._disconnected',
+                                                     CF + ':Crazyflie._link_error_cb'],
+          clause='the library reaches the disconnected state without leaving a lock behind: when the link is lost while the parameter thread '
+                 'waits for the previous answer, the thread wakes up, transmits nothing on the dead link and does not keep the lock, so the same '
+                 'object can download its parameters again after reconnecting',
+          bounded='one schedule: the link error is handled by another thread while the parameter thread is blocked in wait_lock.acquire()')
+def link_lost_while_waiting(c):
+    w = World(c, 1)
+    c.call((w.cf, 'open_link'), URI)
+    w.run_until_quiet(stop_after=7)
+    st = {'held': True, 'fired': False}
+    upd = w.upd
+
+    def acquire(_i, args, _k):
+        if st['held'] and not st['fired']:
+            # the thread blocks here; meanwhile the driver reports a link error on another thread, whose handling
+            # (Param._disconnected -> _ParamUpdater.close) releases this lock; then the blocked acquire succeeds
+            st['fired'] = True
+            c.invoke((w.cf, '_link_error_cb'), 'link lost')
+        if st['held']:
+            return c.raiser('Deadlock', 'acquire of a lock nobody will release')()
+        st['held'] = True
+        return True
+
+    def release(_i, args, _k):
+        if not st['held']:
+            return c.raiser('RuntimeError', 'release unlocked lock')()
+        st['held'] = False
+        return None
+    lock = c.ext('wlock', returns={'acquire': acquire, 'release': release, 'locked': lambda *_a: st['held']})
+    c.set(upd, 'wait_lock', lock)
+    c.invoke((c.getfield(upd, 'request_queue'), 'put'), c.new(STK + ':CRTPPacket', (2 << 4) | 1, bytes([0, 0])))
+    c.reset_trace()
+    c.call((upd, 'run'))
+    c.ensure('thread-goes-back-to-waiting-for-requests', "raised == 'Deadlock' and 'get on empty queue' in str(exc)")
+    c.ensure('nothing-transmitted-on-the-dead-link', "cf.link is None and not any(n.startswith('link') and n.endswith('send_packet') for n in calls())")
+    c.let('held', st['held'])
+    c.ensure('lock-not-kept', 'held is False')
